@@ -52,4 +52,18 @@ def replay(ctx, payload):
 
 
 def matches_known(k, v):
-    return False
+    if k.get("class") != "env-value-has-dollar":
+        return False
+    c = core.from_jsonable(v.get("case"))
+    return any("$" in x for x in env_of(c).values())
+
+
+def check_known(ctx, k):
+    doc = core.from_jsonable(k["witness"]["doc"])
+    env = k["witness"]["env"]
+    c = ["history", None, hist.stream_history([doc]), {"env": env}]
+    hist.collect_tables(ctx, [c], env_of, hist.docs_of_history)
+    r = ctx.impl([c])[0]
+    out = r[-1][1]
+    want = ["ok", [{"a": env["FOO"]}]]
+    return not core.veq(out, want)
